@@ -129,7 +129,11 @@ class JSONPointer:
         if not RE_INDEX.fullmatch(s):
             return s
 
-        index = int(s)
+        try:
+            index = int(s)
+        except ValueError as err:
+            # More digits than Python's integer string conversion limit allows.
+            raise JSONPointerIndexError("index out of range") from err
         if index < self.min_int_index or index > self.max_int_index:
             raise JSONPointerIndexError("index out of range")
         return index
